@@ -234,8 +234,7 @@ def run_closure(repo: Repo, res: Result, rule_id: str = "C03.R1") -> int:
         res.add(rule_id, repo.key(fi, anchor) + " [worklist start]", ok, f"worklist starts from {S.SUBMODULES}(graph, {subj})" if ok else f"worklist starts from {m.worklist_sources}, not from the subject's subtree `{own[0]}`", where(fi, anchor), kind="structural")
         n += 1
         if pushes:
-            g = m.guard_of(m.neighbour_call)
-            ok = any(implies(g, f_not(atom(f"{m.popped} in {x}"))) for x in exc)
+            ok = all(any(implies(m.guard_of(c), f_not(atom(f"{m.popped} in {x}"))) for x in exc) for c in (m.neighbour_calls or [m.neighbour_call]))
             res.add(rule_id, f"{fi.relpath}::{shown}::excluded nodes are not expanded", ok, "popped nodes in the excluded set are skipped" if ok else f"a popped node in `{exc[0]}` is expanded: imports of the rule's objects are reported as the subject's", where(fi, m.neighbour_call), kind="dominance")
         else:
             res.add(rule_id, f"{fi.relpath}::{shown}::no push", True, "the search never extends its worklist beyond the subject's subtree", where(fi, fi.node), nontrivial=False)
